@@ -2,11 +2,11 @@
 from units import c29
 
 LEVEL = "proof"
-TRUSTED = ["Kani 0.68 / CBMC 6.11 (loop-free harness over full-domain symbolic inputs)", "syn-based extractor (byte copy by span)",
+TRUSTED = ["Verus 0.2026.09.13 (unbounded loop contract)", "Kani 0.68 / CBMC 6.11 (loop-free harness over full-domain symbolic inputs)", "syn-based extractor (byte copy by span)",
            "hand-written environment: TestResult reduced to (state, condition); DebugEval shim"]
 ASSUMPTIONS = ["unverified: how the expectation is read from the #[test(should_revert)] attribute; test isolation (fresh storage/interpreter per test); log filtering"]
 EXPLANATION = ""
 
 
 def build(tier):
-    return c29.build(tier)
+    return c29.build(tier) + c29.build_verus(tier)
